@@ -995,6 +995,24 @@ def _rewrite_functional(fn: ast.FunctionDef) -> int:
                         kws.append(k)
                 node.keywords = kws
                 count[0] += 1
+            # (lambda a: E)(x): the body with the argument put in
+            if isinstance(f, ast.Lambda) and not node.keywords and not any(isinstance(a, ast.Starred) for a in node.args):
+                la = f.args
+                if not (la.vararg or la.kwarg or la.kwonlyargs or la.defaults or la.posonlyargs) and len(la.args) == len(node.args) \
+                        and all(_simple_arg(a) or isinstance(a, ast.BoolOp) for a in node.args):
+                    m_ = {p_.arg: a_ for p_, a_ in zip(la.args, node.args)}
+                    uses_ = {}
+                    for n2 in ast.walk(f.body):
+                        if isinstance(n2, ast.Name) and n2.id in m_:
+                            uses_[n2.id] = uses_.get(n2.id, 0) + 1
+                    if all(_simple_arg(a_) or uses_.get(p_, 0) <= 1 for p_, a_ in m_.items()):
+                        class S0(ast.NodeTransformer):
+                            def visit_Name(self, n2):
+                                if n2.id in m_ and isinstance(n2.ctx, ast.Load):
+                                    return copy.deepcopy(m_[n2.id])
+                                return n2
+                        count[0] += 1
+                        return ast.copy_location(S0().visit(copy.deepcopy(f.body)), node)
             # direct application of a partial / methodcaller object
             k = aliases.get(f.id) if isinstance(f, ast.Name) else _callable_kind(f)
             if k is not None and not any(isinstance(a, ast.Starred) for a in node.args):
@@ -1386,6 +1404,149 @@ def _unroll_table_loops(body: List[ast.stmt], table_of) -> bool:
     return changed
 
 
+# ---------------------------------------------------------------------------------------------------------- dispatch through a constant dict
+def _rewrite_dict_dispatch(fn: ast.FunctionDef, dict_of) -> bool:
+    """`h = TABLE.get(key, default)` ... `return h(args)` (TABLE a constant dict display of at most MAX_UNROLL entries with
+    constant keys; h bound once and only ever called as the whole value of a return / assignment / expression statement)
+    becomes the chain `if key == k1: return v1(args) elif ... else: return default(args)`; `TABLE[key](args)` and
+    `TABLE.get(key, default)(args)` written in place likewise (a missing key of `TABLE[key]` raises KeyError)."""
+    stores: Dict[str, int] = {}
+    loads: Dict[str, List[ast.Name]] = {}
+    for n in ast.walk(fn):
+        if isinstance(n, ast.Name):
+            if isinstance(n.ctx, ast.Store):
+                stores[n.id] = stores.get(n.id, 0) + 1
+            else:
+                loads.setdefault(n.id, []).append(n)
+    params = {a.arg for a in fn.args.posonlyargs + fn.args.args + fn.args.kwonlyargs}
+
+    def lookup(e):
+        """(rows, key expr, default expr or None) of TABLE.get(K[, D]) / TABLE[K]"""
+        if isinstance(e, ast.Call) and isinstance(e.func, ast.Attribute) and e.func.attr == "get" and 1 <= len(e.args) <= 2 and not e.keywords:
+            rows = dict_of(e.func.value)
+            if rows is not None:
+                return rows, e.args[0], (e.args[1] if len(e.args) == 2 else ast.Constant(value=None))
+        if isinstance(e, ast.Subscript):
+            rows = dict_of(e.value)
+            if rows is not None:
+                return rows, e.slice, None
+        return None
+
+    def stable(k):
+        return isinstance(k, ast.Constant) or (_plain_chain(k) and not isinstance(k, ast.Call))
+    changed = [False]
+
+    def chain(st: ast.stmt, call: ast.Call, rows, key, default) -> List[ast.stmt]:
+        def variant(func_expr):
+            new_call = ast.Call(func=copy.deepcopy(func_expr), args=[copy.deepcopy(a) for a in call.args], keywords=[copy.deepcopy(k) for k in call.keywords])
+            new_st = copy.deepcopy(st)
+            # put the new call where the old one was (the call is the statement's whole value)
+            new_st.value = new_call
+            return ast.copy_location(new_st, st)
+        if default is not None:
+            tail: List[ast.stmt] = [variant(default)]
+        else:
+            tail = [ast.copy_location(ast.Raise(exc=ast.Call(func=ast.Name(id="KeyError", ctx=ast.Load()), args=[copy.deepcopy(key)], keywords=[]), cause=None), st)]
+        for k, v in reversed(rows):
+            test = ast.Compare(left=copy.deepcopy(key), ops=[ast.Eq()], comparators=[copy.deepcopy(k)])
+            tail = [ast.copy_location(ast.If(test=test, body=[variant(v)], orelse=tail), st)]
+        for x in tail:
+            ast.fix_missing_locations(x)
+        return tail
+
+    def visit(body: List[ast.stmt]):
+        i = 0
+        while i < len(body):
+            st = body[i]
+            for field in ("body", "orelse", "finalbody"):
+                sub = getattr(st, field, None)
+                if isinstance(sub, list) and sub and isinstance(sub[0], ast.stmt) and not isinstance(st, (ast.FunctionDef, ast.AsyncFunctionDef, ast.ClassDef)):
+                    visit(sub)
+            if isinstance(st, ast.Try):
+                for h in st.handlers:
+                    visit(h.body)
+            call = st.value if isinstance(st, (ast.Return, ast.Assign, ast.Expr)) and isinstance(getattr(st, "value", None), ast.Call) else None
+            if call is not None and not any(isinstance(a, ast.Starred) for a in call.args):
+                # written in place
+                lk = lookup(call.func)
+                if lk is not None and stable(lk[1]):
+                    body[i:i + 1] = chain(st, call, *lk)
+                    changed[0] = True
+                    continue
+                # through a local bound once, just before or earlier in this block, and only ever called
+                if isinstance(call.func, ast.Name) and stores.get(call.func.id) == 1 and call.func.id not in params:
+                    nm = call.func.id
+                    for j in range(i - 1, -1, -1):
+                        prev = body[j]
+                        if isinstance(prev, ast.Assign) and len(prev.targets) == 1 and isinstance(prev.targets[0], ast.Name) and prev.targets[0].id == nm:
+                            lk = lookup(prev.value)
+                            uses = loads.get(nm, [])
+                            if lk is not None and stable(lk[1]) and len(uses) == 1 and uses[0] is call.func:
+                                key = lk[1]
+                                kn = {n.id for n in ast.walk(key) if isinstance(n, ast.Name)}
+                                between = body[j + 1:i]
+                                if not any(isinstance(n, ast.Name) and isinstance(n.ctx, ast.Store) and n.id in kn for b in between for n in ast.walk(b)):
+                                    body[i:i + 1] = chain(st, call, *lk)
+                                    del body[j]
+                                    changed[0] = True
+                                    i -= 1
+                            break
+            i += 1
+    visit(fn.body)
+    return changed[0]
+
+
+def _flatten_closure_factories(modules: Dict[str, ast.Module], is_new) -> List[str]:
+    """A new module-level function whose body is `def inner(...): ...; return inner` is a two-stage function: every
+    `factory(a)(b)` is the call `_flat_factory(a, b)` of the flattened definition, added next to the factory."""
+    log: List[str] = []
+    for mn, mod in modules.items():
+        for d in list(mod.body):
+            if not (isinstance(d, ast.FunctionDef) and is_new(d.name) and not d.decorator_list):
+                continue
+            body = [s_ for s_ in d.body if not (isinstance(s_, ast.Expr) and isinstance(s_.value, ast.Constant) and isinstance(s_.value.value, str))]
+            if not (len(body) == 2 and isinstance(body[0], ast.FunctionDef) and isinstance(body[1], ast.Return) and isinstance(body[1].value, ast.Name)
+                    and body[1].value.id == body[0].name):
+                continue
+            inner = body[0]
+            a, b = d.args, inner.args
+            if any((x.vararg, x.kwarg, x.kwonlyargs, x.posonlyargs, x.defaults) != (None, None, [], [], []) for x in (a, b)) or inner.decorator_list:
+                continue
+            if {x.arg for x in a.args} & {x.arg for x in b.args}:
+                continue
+            if any(isinstance(n, (ast.Nonlocal, ast.Global)) for n in ast.walk(inner)):
+                continue
+            flat_name = "_flat_" + d.name.lstrip("_")
+            exists = any(isinstance(x, ast.FunctionDef) and x.name == flat_name for x in mod.body)
+            flat = ast.FunctionDef(name=flat_name, args=ast.arguments(posonlyargs=[], args=[copy.deepcopy(x) for x in a.args + b.args], vararg=None, kwonlyargs=[],
+                                                                       kw_defaults=[], kwarg=None, defaults=[]),
+                                   body=[copy.deepcopy(s_) for s_ in inner.body], decorator_list=[], returns=None, type_comment=None)
+            if hasattr(d, "type_params"):
+                flat.type_params = []
+            ast.copy_location(flat, inner)
+            ast.fix_missing_locations(flat)
+            if not exists:
+                mod.body.insert(mod.body.index(d) + 1, flat)
+            na = len(a.args)
+            hits = [0]
+
+            class R(ast.NodeTransformer):
+                def visit_Call(self, node, d=d, flat_name=flat_name, na=na):
+                    self.generic_visit(node)
+                    f = node.func
+                    if isinstance(f, ast.Call) and isinstance(f.func, ast.Name) and f.func.id == d.name and len(f.args) == na and not f.keywords \
+                            and not node.keywords and not any(isinstance(x, ast.Starred) for x in f.args + node.args):
+                        hits[0] += 1
+                        return ast.copy_location(ast.Call(func=ast.copy_location(ast.Name(id=flat_name, ctx=ast.Load()), f.func), args=f.args + node.args, keywords=[]), node)
+                    return node
+            for m2 in modules.values():
+                R().visit(m2)
+                ast.fix_missing_locations(m2)
+            if hits[0] or not exists:
+                log.append("%s.%s: closure factory flattened as %s (%d call sites)" % (mn, d.name, flat_name, hits[0]))
+    return log
+
+
 # ---------------------------------------------------------------------------------------------------------- for over a generator expression
 def _fuse_generator_loops(fn: ast.FunctionDef) -> bool:
     """`for T in (E for a in X if c): BODY` (the generator given directly, or through a local bound once and used only there)
@@ -1503,6 +1664,14 @@ def normalize_module_trees(modules: Dict[str, ast.Module]) -> List[str]:
 
     for _pass in range(MAX_PASSES):
         any_change = False
+        fl = _flatten_closure_factories(modules, lambda nm: nm not in KNOWN_NAMES and nm not in KEEP)
+        if any("(0 call sites)" not in x for x in fl):
+            any_change = True
+        log += fl
+        for mn, m in modules.items():
+            for n in m.body:
+                if isinstance(n, ast.FunctionDef) and mn not in module_funcs.get(n.name, []):
+                    module_funcs.setdefault(n.name, []).append(mn)
         # ---- count callers of every candidate name (by function)
         callers: Dict[str, Set[int]] = {}
         all_fns = []
@@ -1524,6 +1693,14 @@ def normalize_module_trees(modules: Dict[str, ast.Module]) -> List[str]:
         non_call_refs: Set[str] = set()
         for mn, m in modules.items():
             call_funcs = {id(c.func) for c in ast.walk(m) if isinstance(c, ast.Call)}
+            # entries of module- / class-level constant tables are not "passing the function around": the loops and lookups over
+            # such tables are written out above, and inlining a direct call is valid whatever else refers to the function
+            for holder in [m] + [c_ for c_ in m.body if isinstance(c_, ast.ClassDef)]:
+                for st_ in holder.body:
+                    if isinstance(st_, (ast.Assign, ast.AnnAssign)) and isinstance(getattr(st_, "value", None), (ast.Dict, ast.Tuple, ast.List)):
+                        tnames = [t.id for t in (st_.targets if isinstance(st_, ast.Assign) else [st_.target]) if isinstance(t, ast.Name)]
+                        if tnames and all(t not in KNOWN_TABLES for t in tnames):
+                            call_funcs |= {id(x) for x in ast.walk(st_.value) if isinstance(x, (ast.Name, ast.Attribute))}
             for n in ast.walk(m):
                 if isinstance(n, ast.Attribute) and id(n) not in call_funcs and isinstance(n.ctx, ast.Load):
                     non_call_refs.add(n.attr)
@@ -1676,6 +1853,40 @@ def normalize_module_trees(modules: Dict[str, ast.Module]) -> List[str]:
                         if disp is None or any(isinstance(e, ast.Starred) for e in disp.elts):
                             return None
                         return list(disp.elts)
+                    def dict_of(e, mn=mn, fn=fn, cls=cls):
+                        """(key, value) rows of a constant dict display the expression denotes, or None"""
+                        disp = None
+                        if isinstance(e, ast.Dict):
+                            disp = e
+                        elif isinstance(e, ast.Name):
+                            local = [n for n in ast.walk(fn) if isinstance(n, (ast.Assign, ast.AnnAssign)) and any(
+                                isinstance(t, ast.Name) and t.id == e.id for t in (n.targets if isinstance(n, ast.Assign) else [n.target]))]
+                            stores_ = [n for n in ast.walk(fn) if isinstance(n, ast.Name) and n.id == e.id and isinstance(n.ctx, ast.Store)]
+                            mutated = any(isinstance(n, ast.Subscript) and isinstance(n.ctx, (ast.Store, ast.Del)) and isinstance(n.value, ast.Name) and n.value.id == e.id
+                                          for n in ast.walk(fn))
+                            if len(local) == 1 and len(stores_) == 1 and isinstance(local[0].value, ast.Dict) and not mutated:
+                                disp = local[0].value
+                            elif not stores_ and e.id not in [a.arg for a in fn.args.args + fn.args.kwonlyargs] and e.id not in KNOWN_TABLES:
+                                for m2n, m2 in modules.items():
+                                    if m2n != mn and e.id not in module_imports.get(mn, ()):
+                                        continue
+                                    for n in m2.body:
+                                        if isinstance(n, (ast.Assign, ast.AnnAssign)) and n.value is not None and isinstance(n.value, ast.Dict) and any(
+                                                isinstance(t, ast.Name) and t.id == e.id for t in (n.targets if isinstance(n, ast.Assign) else [n.target])):
+                                            disp = n.value
+                        elif isinstance(e, ast.Attribute) and isinstance(e.value, ast.Name) and cls is not None and e.value.id in ("self", "cls", cls.name) \
+                                and e.attr not in KNOWN_TABLES:
+                            for n in cls.body:
+                                if isinstance(n, (ast.Assign, ast.AnnAssign)) and n.value is not None and isinstance(n.value, ast.Dict) and any(
+                                        isinstance(t, ast.Name) and t.id == e.attr for t in (n.targets if isinstance(n, ast.Assign) else [n.target])):
+                                    disp = n.value
+                        if disp is None or not disp.keys or len(disp.keys) > MAX_UNROLL or any(k is None or not isinstance(k, ast.Constant) for k in disp.keys):
+                            return None
+                        return list(zip(disp.keys, disp.values))
+                    if _rewrite_dict_dispatch(fn, dict_of):
+                        any_change = True
+                        log.append("%s.%s: dispatch through a constant dict written out" % (cls.name if cls else mn, fn.name))
+                        ast.fix_missing_locations(fn)
                     if _fuse_generator_loops(fn):
                         any_change = True
                         log.append("%s.%s: for-over-generator-expression fused" % (cls.name if cls else mn, fn.name))
